@@ -378,6 +378,7 @@ func (g *Gen) load(st *State, lv *LValue) *Value {
 	}
 	if lv.Kind != lvCell {
 		g.facts(st, v)
+		g.allocBound(st, v)
 	}
 	return v
 }
@@ -432,6 +433,9 @@ func (g *Gen) facts(st *State, v *Value) {
 				g.addCons(fmt.Sprintf("(and (<= %s %s) (<= %s %s))", lo, t, t, hi))
 			}
 		case "ref", "obj", "val":
+			if l.Kind == "ref" && mayBeInterior(l.T) {
+				continue // may hold the address of a field (encoded as a negative number)
+			}
 			g.rangeDone[key] = true
 			g.addCons(fmt.Sprintf("(<= 0 %s)", t))
 		case "str":
@@ -497,8 +501,16 @@ func (g *Gen) allocBound(st *State, v *Value) {
 	for i, l := range sh {
 		switch l.Kind {
 		case "ref", "obj":
+			if l.Kind == "ref" && mayBeInterior(l.T) {
+				continue
+			}
 			if !isLiteral(v.L[i]) {
-				g.addCons(fmt.Sprintf("(<= %s %s)", v.L[i], st.alloc))
+				bound := st.alloc
+				// a reference read from the entry heap at an object that existed at entry existed at entry itself
+				if entryReachable(v.L[i]) {
+					bound = "alloc!0"
+				}
+				g.addCons(fmt.Sprintf("(<= %s %s)", v.L[i], bound))
 			}
 		}
 	}
@@ -599,3 +611,62 @@ func posOf(fset *token.FileSet, p token.Pos) string {
 
 var _ = ast.Inspect
 var _ = sort.Strings
+
+// mayBeInterior: a pointer to a non-struct type may be the address of a struct field (&x.f) that was
+// stored somewhere; such addresses are encoded as negative numbers, so no range is assumed for them.
+func mayBeInterior(t types.Type) bool {
+	if t == nil {
+		return false
+	}
+	p, ok := types.Unalias(t).Underlying().(*types.Pointer)
+	if !ok {
+		return false
+	}
+	_, isStruct := types.Unalias(p.Elem()).Underlying().(*types.Struct)
+	return !isStruct
+}
+
+// materialize turns a statically known field address into an integer identity: -(obj*4096 + path id).
+// Loads through such a pointer in another function see an ordinary boxed value (the link between
+// *(&x.f) and x.f is not modelled; noted).
+func (g *Gen) materialize(v *Value) (*Value, bool) {
+	if v.LV == nil || len(v.L) != 1 || !strings.HasPrefix(v.L[0], "?") {
+		return v, true
+	}
+	lv := v.LV
+	if (lv.Kind == lvHeap || lv.Kind == lvBox) && lv.ArrIdx == "" {
+		if lv.Path == "" {
+			return &Value{T: v.T, L: []string{lv.Obj}}, true
+		}
+		g.note("addresses of struct fields stored in memory are opaque identities (loads through them are not linked to the field)")
+		return &Value{T: v.T, L: []string{fmt.Sprintf("(- 0 (+ (* %s 4096) %s))", lv.Obj, g.pathID(typeKey(lv.Root)+lv.Path))}}, true
+	}
+	return v, false
+}
+
+// entryReachable: the term is an input or a chain of reads from components that have not been written
+// since entry (C.<key>!0), starting at an input: such a reference denotes an object that existed at entry.
+func entryReachable(t string) bool {
+	if strings.HasPrefix(t, "in_") && !strings.ContainsAny(t, " ()") {
+		return true
+	}
+	if !strings.HasPrefix(t, "(select ") {
+		return false
+	}
+	parts := splitSexp(t)
+	if len(parts) != 3 {
+		return false
+	}
+	arr, idx := parts[1], parts[2]
+	if strings.HasPrefix(arr, "C.") && strings.HasSuffix(arr, "!0") && !strings.ContainsAny(arr, " ()") {
+		return entryReachable(idx)
+	}
+	// two-level: (select (select C.E!0 obj) i)
+	if strings.HasPrefix(arr, "(select ") {
+		p2 := splitSexp(arr)
+		if len(p2) == 3 && strings.HasPrefix(p2[1], "C.") && strings.HasSuffix(p2[1], "!0") && !strings.ContainsAny(p2[1], " ()") {
+			return entryReachable(p2[2])
+		}
+	}
+	return false
+}
